@@ -145,6 +145,7 @@ LibCall::LibCall(Ctx &ctx, const Op *op, int) : c(ctx)
     g_sim.fail_vna = g_sim.fail_yaml = 0;
     g_sim.fail_vna_sticky = false;
     g_sim.fired_vna = g_sim.fired_yaml = 0;
+    g_sim.n_toobig = 0;
     g_sim.fired_read_eio = g_sim.fired_read_eof = g_sim.fired_write_err = g_sim.fired_close_err = g_sim.fired_open = 0;
     FileFaults ff;
     if (ctx.plan) {
@@ -184,6 +185,7 @@ void LibCall::done()
 	if ((long)c.main_allocs.size() <= c.cur_op) c.main_allocs.resize((size_t)c.cur_op + 1, 0);
 	c.main_allocs[(size_t)c.cur_op] += g_sim.n_vna;
     }
+    if (g_sim.n_toobig) c.count("alloc.above_simulated_ram.refused", g_sim.n_toobig);
     if (g_sim.fired_vna) c.count("fault.alloc.vna.fired", g_sim.fired_vna);
     if (g_sim.fired_yaml) { c.count("fault.alloc.yaml.fired", g_sim.fired_yaml); c.count("ledger.yaml_blocks_forgiven", (long)ledger_forgive_yaml(g_sim.op_index)); }
     if (g_sim.fired_read_eio) c.count("fault.read.eio.fired", g_sim.fired_read_eio);
@@ -211,6 +213,55 @@ void fault_recovered(Ctx &c, const std::string &what, int first_err, bool alloc_
     c.count("probe.reissued_after_fault_ok");
     if (alloc_fault && c.strict_enomem && first_err != ENOMEM)
 	c.violate("c12", what + ":errno", strf("%s failed only because an allocation failure was injected (it succeeds when re-issued) but reported errno %s instead of ENOMEM", what.c_str(), errno_name(first_err)));
+}
+
+// C11: reporting discipline of the library call that has just returned (the callbacks recorded
+// since the last LibCall was constructed belong to it).
+//   failed     the call returned its failure value
+//   err        errno after the call
+//   installed  an error function was given to the object the call works on
+//   mode       C11_MUST (manual: calls the error function on failure), C11_SILENT (manual: never
+//              calls it), C11_MAY (manual is not explicit)
+void c11_discipline(Ctx &c, const std::string &site, const char *fn, bool failed, int err, bool installed, int mode)
+{
+    if (c.violated || !c.c11) return;
+    int last = -1, last_e = 0;
+    for (auto &cb : g_sim.callbacks) {
+	if (cb.msg.empty() || cb.msg.find('\n') != std::string::npos) { c.violate("c11", site + ":message", strf("%s handed the error function a message that is not a single line: %s", fn, Json(cb.msg).str().c_str())); return; }
+	if (cb.category < VNAERR_SYSTEM || cb.category > VNAERR_INTERNAL) { c.violate("c11", site + ":category", strf("%s reported category %d", fn, cb.category)); return; }
+	if (cb.category != VNAERR_WARNING) { last = cb.category; last_e = cb.err; }
+    }
+    if (!g_sim.callbacks.empty()) c.count("c11.calls_with_callback");
+    if (!installed && !g_sim.callbacks.empty()) { c.violate("c11", site + ":callback", strf("%s called an error function although none was installed", fn)); return; }
+    if (mode == C11_SILENT && !g_sim.callbacks.empty()) { c.violate("c11", site + ":callback", strf("%s is documented not to invoke the error function but did: %s", fn, g_sim.callbacks[0].msg.c_str())); return; }
+    if (!failed) {
+	if (last >= 0) c.violate("c11", site + ":callback", strf("%s reported success after telling the error function: %s", fn, g_sim.callbacks.back().msg.c_str()));
+	else c.count("c11.success_checked");
+	return;
+    }
+    if (err == 0) { c.violate("c11", site + ":errno", strf("%s returned its failure value with errno 0", fn)); return; }
+    if (installed && mode == C11_MUST && last < 0) { c.violate("c11", site + ":callback", strf("%s failed (errno %s) without calling the error function", fn, errno_name(err))); return; }
+    if (last >= 0) {
+	int want = last == VNAERR_USAGE ? EINVAL : last == VNAERR_MATH ? EDOM : last == VNAERR_SYNTAX ? EBADMSG : last == VNAERR_VERSION ? ENOPROTOOPT : last == VNAERR_INTERNAL ? ENOSYS : 0;
+	if (want && err != want) { c.violate("c11", site + ":errno", strf("%s reported category %d (%s) but returned with errno %s", fn, last, g_sim.callbacks.back().msg.c_str(), errno_name(err))); return; }
+	if (want && last_e != want) { c.violate("c11", site + ":errno", strf("%s: errno was %s, not %s, while the error function ran", fn, errno_name(last_e), errno_name(want))); return; }
+	if (!want && err == 0) { c.violate("c11", site + ":errno", strf("%s reported a system error with errno 0", fn)); return; }
+    }
+    c.count(mode == C11_SILENT ? "c11.silent_failure_checked" : last >= 0 ? "c11.reported_failure_checked" : "c11.unreported_failure_seen");
+}
+
+void c11_auto(Ctx &c, const char *fn, bool failed, int err)
+{
+    if (!c.c11 || c.violated) return;
+    std::string f = fn;
+    if (f == "vnacal_load") return;	// judged at the call site (stream faults make its outcome open)
+    int mode = C11_MAY;
+    auto starts = [&](const char *p) { return f.compare(0, strlen(p), p) == 0; };
+    if (starts("vnacal_find_") || f == "vnacal_delete_calibration" || starts("vnacal_property_") || (starts("vnacal_get_") && f != "vnacal_get_parameter_value")) mode = C11_SILENT;
+    else if (starts("vnacal_new_") || starts("vnacal_make_") || f == "vnacal_get_parameter_value" || f == "vnacal_delete_parameter" ||	// vnacal_new(3), vnacal_parameter(3)
+	    f == "vnacal_create" || f == "vnacal_save" || f == "vnacal_add_calibration" || starts("vnacal_apply")) mode = C11_MUST;	// vnacal(3)
+    else if (starts("vnaproperty_import") || starts("vnaproperty_export")) mode = C11_MUST;
+    c11_discipline(c, f, fn, failed, err, c.cb_installed, mode);
 }
 
 void check_ledger_empty(Ctx &c, const char *when)
